@@ -233,7 +233,8 @@ Section Light.
       - rewrite walk_func_eq. eapply lightP_bind; [apply walk_func_light; auto|].
         intros [s1 [e|]] I1; simpl in I1; [exact I1|]. apply IH; auto.
       - cbn [walk]. apply IH; auto.
-        destruct prev as [[| | | |]|]; exact Is.
+        destruct prev as [[| |n2 t2 s2| |]|]; try exact Is.
+        destruct (lookup (KVal n2 t2 s2) (s_vals s)); exact Is.
       - cbn [walk]. apply IH; auto.
         destruct (s_last s); [|exact Is]. destruct (assignable u (v_ty v) t); exact Is.
       - cbn [walk]. apply IH; auto.
